@@ -453,6 +453,22 @@ class Interp:
         """introduce definitions (fresh variables == terms) for the strings inside a value"""
         if isinstance(v, VStr):
             return VStr(bstr.named(v.e, self.side))
+        if isinstance(v, VInt):
+            x = z3.simplify(v.e)
+            if z3.is_bv_value(x) or (z3.is_const(x) and x.decl().kind() == z3.Z3_OP_UNINTERPRETED):
+                return VInt(x, getattr(v, "maxval", None))
+            self.fresh_n += 1
+            nv = z3.BitVec("int!%d" % self.fresh_n, bstr.W)
+            self.side.append(nv == x)
+            return VInt(nv, getattr(v, "maxval", None))
+        if isinstance(v, VBool):
+            x = z3.simplify(v.e)
+            if z3.is_true(x) or z3.is_false(x) or (z3.is_const(x) and x.decl().kind() == z3.Z3_OP_UNINTERPRETED):
+                return VBool(x)
+            self.fresh_n += 1
+            nb = z3.Bool("bool!%d" % self.fresh_n)
+            self.side.append(nb == x)
+            return VBool(nb)
         if isinstance(v, VEnum):
             return VEnum(v.ty, v.tag, {k: [self.name_value(x) for x in pl] for k, pl in v.payload.items()})
         if isinstance(v, VTuple):
@@ -676,7 +692,7 @@ class Interp:
             if pc2 is not sub_pc and not z3.eq(z3.simplify(pc2), z3.simplify(sub_pc)):
                 raise Unsupported("control flow inside && operand: %s vs %s" % (z3.simplify(pc2), z3.simplify(sub_pc)))
             return VBool(z3.And(l.e, r.e) if op == "&&" else z3.Or(l.e, r.e)), env, pc
-        if op in ("+=", "-=", "*=", "/=", "%=", "|=", "&="):
+        if op in ("+=", "-=", "*=", "/=", "%=", "|=", "&=", "^=", "<<=", ">>="):
             sub = dict(e)
             sub["op"] = op[:-1]
             v, env, pc = self.e_binary(sub, env, pc)
@@ -712,6 +728,8 @@ class Interp:
                 return VInt(l.e & r.e), env, pc
             if op == "|":
                 return VInt(l.e | r.e), env, pc
+            if op == "^":
+                return VInt(l.e ^ r.e), env, pc
             if op == "<<":
                 return VInt(l.e << r.e), env, pc
             if op == ">>":
@@ -1640,24 +1658,48 @@ def m_to_be_bytes(I, a, args, pc, e):
 
 
 def _sort_items(I, v, less, pc):
-    """stable insertion sort of a vector with CONCRETE length using compare(a, b) -> z3 Bool 'a must come after b'"""
+    """stable insertion sort using less(a, b) -> z3 Bool 'a sorts strictly before b'.
+    Vectors of symbolic length are sorted over their whole capacity with the slots beyond the length
+    treated as +infinity (they stay at the end)."""
     n = cval(v.n)
-    if n is None:
-        raise Unsupported("sort of a vector with symbolic length")
-    items = list(v.items[:n])
-    for i in range(1, n):
+    if n is not None:
+        items = list(v.items[:n])
+        valid = [z3.BoolVal(True)] * n
+    else:
+        items = list(v.items)
+        valid = [ult(bv(i), v.n) for i in range(len(items))]
+    for i in range(1, len(items)):
         for j in range(i, 0, -1):
-            swap = less(items[j], items[j - 1])  # items[j] < items[j-1]  => move it left
+            # move items[j] left over items[j-1] iff it is valid and (the left one is not, or it is strictly smaller)
+            swap = z3.simplify(z3.And(valid[j], z3.Or(z3.Not(valid[j - 1]), less(items[j], items[j - 1]))))
             a, b = items[j - 1], items[j]
-            items[j - 1], items[j] = ite(swap, b, a), ite(swap, a, b)
-    return VVec(items)
+            if z3.is_false(swap):
+                continue
+            items[j - 1], items[j] = I.name_value(ite(swap, b, a)), I.name_value(ite(swap, a, b))
+            va, vb = valid[j - 1], valid[j]
+            valid[j - 1], valid[j] = I.name_value(VBool(z3.If(swap, vb, va))).e, I.name_value(VBool(z3.If(swap, va, vb))).e
+    return VVec(items, v.n)
+
+
+def _key_less(a, b):
+    """strict order on sort keys: unsigned integers, bools, chars, and tuples of those (lexicographic)"""
+    if isinstance(a, VTuple) and isinstance(b, VTuple) and len(a.items) == len(b.items):
+        res = z3.BoolVal(False)
+        for x, y in reversed(list(zip(a.items, b.items))):
+            res = z3.Or(_key_less(x, y), z3.And(veq(x, y), res))
+        return res
+    if isinstance(a, (VInt, VChar)) and isinstance(b, (VInt, VChar)):
+        return ult(a.e, b.e)
+    if isinstance(a, VBool) and isinstance(b, VBool):
+        return z3.And(z3.Not(a.e), b.e)
+    raise Unsupported("sort key of type %s" % type(a).__name__)
 
 
 def m_sort_by_key(I, v, args, pc, e):
     clo = args[0]
     def less(x, y):
         kx, ky = I.call_closure(clo, [x], pc), I.call_closure(clo, [y], pc)
-        return ult(kx.e, ky.e)
+        return _key_less(kx, ky)
     return Effects(VUnit(), recv=_sort_items(I, v, less, pc))
 
 
@@ -1921,6 +1963,13 @@ METHODS = {
     ("VInt", "cmp"): m_int_cmp,
     ("VInt", "max"): lambda I, a, args, pc, e: VInt(z3.If(uge(a.e, args[0].e), a.e, args[0].e)),
     ("VInt", "min"): lambda I, a, args, pc, e: VInt(z3.If(ule(a.e, args[0].e), a.e, args[0].e)),
+    ("VInt", "saturating_sub"): lambda I, a, args, pc, e: VInt(z3.If(uge(a.e, args[0].e), a.e - args[0].e, bv(0))),
+    ("VInt", "saturating_add"): lambda I, a, args, pc, e: VInt(z3.If(z3.BVAddNoOverflow(a.e, args[0].e, False), a.e + args[0].e, bv(2 ** 64 - 1))),
+    ("VInt", "wrapping_sub"): lambda I, a, args, pc, e: VInt(a.e - args[0].e),
+    ("VInt", "wrapping_add"): lambda I, a, args, pc, e: VInt(a.e + args[0].e),
+    ("VInt", "abs_diff"): lambda I, a, args, pc, e: VInt(z3.If(uge(a.e, args[0].e), a.e - args[0].e, args[0].e - a.e)),
+    ("VInt", "is_power_of_two"): lambda I, a, args, pc, e: VBool(z3.And(a.e != bv(0), (a.e & (a.e - bv(1))) == bv(0))),
+    ("VInt", "pow"): lambda I, a, args, pc, e: (_ for _ in ()).throw(Unsupported("pow")),
     ("VInt", "checked_add"): m_checked_add,
     ("VInt", "checked_sub"): m_checked_sub,
     ("VInt", "div_ceil"): m_div_ceil,
